@@ -45,7 +45,10 @@ func (fv *FnVerifier) wfListTerm(st *State, l string) string {
 		nx, e, l, ow, nx, e, l,
 		pv, e, l, ow, pv, e, l)
 	one := fv.mode.idx(1)
-	single := fmt.Sprintf("(= (= (select %s %s) %s) (and (not (= (select %s %s) %s)) (= (select %s %s) (select %s %s))))", ln, l, one, nx, l, l, nx, l, pv, l)
+	// links are ordinary object references (never element references): non-negative
+	nonneg := fmt.Sprintf("(and (<= 0 (select %s %s)) (<= 0 (select %s %s)) (forall ((%s Int)) (! (=> (= (select %s %s) %s) (and (<= 0 (select %s %s)) (<= 0 (select %s %s)))) :pattern ((select %s %s)) :pattern ((select %s %s)))))",
+		nx, l, pv, l, e, ow, e, l, nx, e, pv, e, nx, e, pv, e)
+	single := nonneg + " " + fmt.Sprintf("(= (= (select %s %s) %s) (and (not (= (select %s %s) %s)) (= (select %s %s) (select %s %s))))", ln, l, one, nx, l, l, nx, l, pv, l)
 	return "(and " + single + " " + fmt.Sprintf("(and (= (select %s (select %s %s)) %s) (= (select %s (select %s %s)) %s) %s (= (= (select %s %s) %s) (= (select %s %s) %s)) (= (= (select %s %s) %s) (= (select %s %s) %s)) (or (= (select %s %s) %s) (= (select %s (select %s %s)) %s)) (or (= (select %s %s) %s) (= (select %s (select %s %s)) %s)) (not (= (select %s %s) %s)) (forall ((%s Int)) (! %s :pattern ((select %s %s)) :pattern ((select %s %s)))))",
 		pv, nx, l, l,
 		nx, pv, l, l,
